@@ -83,6 +83,8 @@ def build(case):
     own_probe_tables = bool(rng.random() < 0.25)       # the inputs carry a channel_probe.npy of their own (it says nothing about the merge)
     same_dat_name = [None, None, 'recording.bin', ['recording.bin']][int(rng.integers(0, 4))]     # the same raw file NAME in every folder
     other_rate = bool(rng.random() < 0.12)
+    tpl_dtypes = [['float32'], ['float32'], ['float64'], ['float32', 'float64'], ['float64', 'float32']][int(rng.integers(0, 5))]     # per-probe template precision
+    spread = bool(rng.random() < 0.2)        # inputs whose coordinates are already spread along x (0.., 100.., 0.., 300..)
     if case.get('finite_only'):
         nonfinite = -1            # (C13/C14 export amplitudes, which non-finite templates leave undefined)
     specs = []
@@ -98,12 +100,15 @@ def build(case):
                         dtype_ids=['int32', 'uint32', 'int64', 'uint16'][int(rng.integers(0, 4))] if not huge else 'int64',
                         dtype_times=['uint64', 'int64'][int(rng.integers(0, 2))],
                         spikeless=['none', 'none', 'middle', 'last'][int(rng.integers(0, 4))],
-                        ncdat_extra=int(rng.integers(0, 3)), permute_map=bool(rng.integers(0, 2)), probes=own_probe_tables)
+                        ncdat_extra=int(rng.integers(0, 3)), permute_map=bool(rng.integers(0, 2)), probes=own_probe_tables,
+                        dtype_templates=tpl_dtypes[p % len(tpl_dtypes)])
         if same_dat_name is not None:
             s.notes['dat_path_literal'] = same_dat_name
         if p >= 1 and other_rate:
             s.sample_rate = rate * 0.9          # a probe with its own clock: sample numbers are kept as they are
         s.positions = s.positions - s.positions.min(axis=0)        # non-negative coordinates
+        if spread and p % 2 == 1:
+            s.positions[:, 0] += 100. * p
         if rng.random() < 0.25:
             s.notes['fortran'] = 'all'            # column-major .npy files (MATLAB exporters), in any probe incl. the first
         if p == nonfinite:
